@@ -314,7 +314,7 @@ func (cmd *mainCmd) Run(args []string) error {
 		}
 
 		var out bytes.Buffer
-		if err := format.Node(&out, fset, f); err != nil {
+		if err := formatNode(&out, fset, f); err != nil {
 			vhook.Event("format", "file", filename, "ok", false)
 			log.Printf("%s: failed: %v", filename, err)
 			errors = append(errors, fmt.Errorf("failed to rewrite %q: %v", filename, err))
@@ -365,6 +365,18 @@ func (cmd *mainCmd) Run(args []string) error {
 	errors = append(errors, patchRunner.errors...)
 	vhook.Event("done", "errors", len(errors))
 	return multierr.Combine(errors...)
+}
+
+// formatNode prints the rewritten file. A patch that fits a file badly can
+// leave nodes in the tree that go/printer does not know how to print; that
+// is a failure to rewrite this file, not a reason to crash.
+func formatNode(w io.Writer, fset *token.FileSet, f *ast.File) (err error) {
+	defer func() {
+		if p := recover(); p != nil {
+			err = fmt.Errorf("cannot print the rewritten file: %v", p)
+		}
+	}()
+	return format.Node(w, fset, f)
 }
 
 // writeFileAtomic replaces the contents of filename with content.
